@@ -226,6 +226,26 @@ def _special_cases():
     return out
 
 
+def _fold_boundary_cases():
+    """every layer-special character at every position around the first three fold points of a long property value (the value
+    goes through folding and unfolding): one- and two-octet fillers shift the boundary through all alignments"""
+    out = []
+    for ch in ["\r", "\n", "\t", " ", "\\", ";", ",", ":", '"', "\u2028", "\x85", "\u00e9", "\U0001F600", "\r\r", " \r", "\r "]:
+        for filler in ("a", "\u00e9"):
+            width = len(filler.encode("utf-8"))
+            for boundary in (75, 149, 223):
+                for off in range(-14, 4):
+                    pos = (boundary + off) // width
+                    if pos < 0:
+                        continue
+                    s_ = filler * pos + ch + filler * 12
+                    out.append({"path": "prop", "name": "summary", "s": s_})
+                    if off % 3 == 0:
+                        out.append({"path": "prop", "name": "X-VERIF-LONG-NAME", "s": s_})
+                        out.append({"path": "cat", "items": [s_, "x"]})
+    return out
+
+
 _long_alpha = st.one_of(
     st.sampled_from(SPECIALS),
     st.sampled_from(ALPHA + ["\\", "\\", ";", ",", "\r\n", "\\n", "\\N", "%2C", "%5C", "\\\\"]),
@@ -272,6 +292,7 @@ def streams(tier):
     out.append(Stream("catcodec-exhaustive", "enum", ncat, 8, lambda i: _cat_case(i, "catcodec", c1, c2), True, True))
     out.append(Stream("cat-exhaustive", "enum", ncat, 8, lambda i: _cat_case(i, "cat", c1, c2), True, True))
     out.append(Stream("special-characters", "fixed", 0, 2, _special_cases, True, False))
+    out.append(Stream("specials-at-fold-boundaries", "fixed", 0, 4, _fold_boundary_cases, True, False))
     out.append(Stream("long-unicode", "hyp", hyp_n, 16, _hyp_cases))
     return out
 
